@@ -1,10 +1,10 @@
 ID = 'C04'
 TITLE = 'DeepLIFT/SHAP attributions sum to the prediction difference from reference'
 CONTRACT_MODULES = ['contracts.dls_c']
-FUNCTIONS = ['tangermeme.deep_lift_shap._nonlinear', 'tangermeme.deep_lift_shap.hypothetical_attributions']
+FUNCTIONS = ['tangermeme.deep_lift_shap._nonlinear', 'tangermeme.deep_lift_shap.hypothetical_attributions', 'tangermeme.deep_lift_shap.deep_lift_shap']
 BOUNDED = 'bounded.C04'
 BOUNDED_BUDGET = {'quick': 60, 'thorough': 600}
 LEVEL = 'other'
-EXPLANATION = "deductive: _nonlinear under contract (whole function): for every captured activation batch [examples; references] of 2h rows the multiplier returned for row r satisfies m*delta_in = grad_output*delta_out of the pair r mod h wherever |delta_in| >= 1e-6 (summation-to-delta carried through every registered element-wise non-linearity), and hypothetical_attributions (whole function) = sum_c (e_k - ref)[c]*m[c]. NOT under contract: the composition through torch.autograd (linear layers' transposes, hook dispatch), _maxpool, the convergence-delta warning - those are the bounded stand-in: completeness of attributions against plain forward passes on seeded random float64 architectures"
+EXPLANATION = "deductive: _nonlinear under contract (whole function): for every captured activation batch [examples; references] of 2h rows the multiplier returned for row r satisfies m*delta_in = grad_output*delta_out of the pair r mod h wherever |delta_in| >= 1e-6 (summation-to-delta carried through every registered element-wise non-linearity), and hypothetical_attributions (whole function) = sum_c (e_k - ref)[c]*m[c]. deep_lift_shap (whole function): result[e] = mean over the ns pairs of example e of the hypothetical projection of the per-pair multipliers, masked by X[e] (composition of the pieces above, for every batch size). NOT under contract: the composition through torch.autograd (linear layers' transposes, hook dispatch), _maxpool, the convergence-delta warning - those are the bounded stand-in: completeness of attributions against plain forward passes on seeded random float64 architectures"
 ASSUMPTIONS = ['torch.autograd propagates grad_output through linear/conv/avg-pool layers by their transposes and calls the registered backward hooks with (grad_input, grad_output) of the module', 'floats treated as reals', '_maxpool bounded only']
 TRUSTED = []
